@@ -363,9 +363,10 @@ def _shard(args):
     firsts, menu, depth, input_lists = args
     part = explore.Partial()
     for f in firsts:
-        for n in range(0, depth):
+        f = f if isinstance(f[0], tuple) else (f,)     # a prefix of operations (one operation or a pair)
+        for n in range(0, depth - len(f) + 1):
             for rest in itertools.product(menu, repeat=n):
-                ops = (f,) + rest
+                ops = f + rest
                 for inputs in input_lists:
                     check(part, ops, inputs)
     return part.data()
@@ -400,10 +401,10 @@ def run(tier, seed):
     rep = Report(PROP, tier, seed, "model_checking")
     quick = tier == "quick"
     da = 4 if quick else 6
-    explore.pmap(_shard, [([f], MENU_A, da, INPUT_LISTS) for f in MENU_A], rep, seed)
+    explore.pmap(_shard, [([f], MENU_A, 1, INPUT_LISTS) for f in MENU_A] + [([(f, g)], MENU_A, da, INPUT_LISTS) for f in MENU_A for g in MENU_A], rep, seed)
     mb = menu_b()
     db = 2 if quick else 3
-    explore.pmap(_shard, [([f], mb, db, INPUT_LISTS) for f in mb], rep, seed)
+    explore.pmap(_shard, [([f], mb, 1, INPUT_LISTS) for f in mb] + [([(f, g) for g in mb[i:i + 8]], mb, db, INPUT_LISTS) for f in mb for i in range(0, len(mb), 8)], rep, seed)
     n_hist = sum(len(MENU_A) ** k for k in range(1, da + 1)) * len(INPUT_LISTS) + sum(len(mb) ** k for k in range(1, db + 1)) * len(INPUT_LISTS)
     explore.pmap(_bfs_shard, [(inp, mb, 12) for inp in INPUT_LISTS], rep, seed)
     names = [t for t, _ in E2E_TEXTS]
